@@ -12,7 +12,7 @@ P = {
          "The whole finite domain is executed at the temporal decoder (and a quarter/all at the environmental decoder's temporal view) and compared with the exact ceiling of rounded-base x weights.", "4/C02", TB),
  "C03": (True, "runtime monitor: full effective-metric x temporal product (14 M) + 20 M random full-space samples (quick) / full 1.15e10 product (thorough) on the real Score(), differential against big.Rat table",
          "The score is a function of the effective metrics; that product is executed completely with seed-chosen representations, plus decoded vectors; thorough executes the full version x base x environmental product the property names.", "4/C03", TB),
- "C04": (True, "runtime monitor: exhaustive enumeration of all 73,629 v2 vectors x admitting decoders, differential against exact model with admissible tie sets; known finding KF-1",
+ "C04": (True, "runtime monitor: exhaustive enumeration of all 73,629 v2 base/temporal vectors x admitting decoders, and of the same vectors followed by environmental groups at the environmental decoder (quick 4 seeded groups each, thorough all 141 M v2 vectors), differential against exact model with admissible tie sets; known finding KF-1",
          "The whole finite domain is executed at every admitting decoder and compared with the exact rational equations (exact halves either way). 22 base vectors deviate (sub-scores rounded to two decimals) and are listed in known_findings.json with the library's value; any other mismatch is a violation.", "4/C04", TB),
  "C05": (True, "runtime monitor: every (exploitability, adjusted-impact) key x all (CDP,TD) x temporal states through Decode (quick 5.6 M, thorough all 141 M vectors), differential against exact layered admissible-set model; known finding KF-2",
          "Every sub-score key of the environmental equation is executed with all CDP/TD pairs; thorough executes the entire 141 M-vector domain. Mismatches are attributed to the recorded finding only for listed keys with the recorded value.", "4/C05", TB),
@@ -74,7 +74,7 @@ m = {
               "kind_free_text": "Go monitor binary rebuilt by ./check from /repo's working tree (replace directive); runs the real library under generated workloads and compares every observation at the client boundary with reference models / relational oracles / the race detector"}],
  "checks": checks,
  "not_applicable": na,
- "notes": "Technique family: runtime monitoring. ./check exits 0 (held on everything explored), 1 (VIOLATION line + replay file) or 2 (INCONCLUSIVE: build failure, watchdog, observation floor not reached). Known findings: known_findings.json.",
+ "notes": "Technique family: runtime monitoring. The score, corpus and view monitors (C01-C06, C09, C10, C13, C14) end with compact re-runs of themselves in fresh child processes with GOMAXPROCS 1, 3, 7 and 14; C12 decodes its long inputs once more in a child process with a 16 MiB stack limit; C15, C16 and C18 use child processes for process orders, race-detector rounds and first-use orders. ./check exits 0 (held on everything explored), 1 (VIOLATION line + replay file) or 2 (INCONCLUSIVE: build failure, watchdog, observation floor not reached). Known findings: known_findings.json.",
 }
 json.dump(m, open(os.path.join(HERE, "MANIFEST.json"), "w"), indent=1)
 print("checks:", len(checks), "not_applicable:", len(na))
